@@ -123,31 +123,40 @@ def compare_tokens(impl_line, model_line, rtol=0.0, atol=0.0):
 
 # ----------------------------------------------------------------------------------------------- translators
 def run_translators():
-    """regenerate coq/gen/*.v from /repo; returns list of error strings (empty = ok)"""
+    """regenerate coq/gen/*.v from /repo; returns a list of (property id or None, error string) — empty = ok.
+    An error is tagged with the property whose tie it breaks (None = every property).  Each translator leaves out what
+    it could not translate, so the Coq files that need the missing piece stop compiling: a broken translation shows up
+    (as a proof failure) in exactly the properties that depend on it and in no other."""
     errs = []
+    gen = os.path.join(COQ, "gen")
+    os.makedirs(gen, exist_ok=True)
     import constants
     text, e = constants.generate(REPO)
-    if e:
-        errs += ["constants.py: " + x for x in e]
-    else:
-        out = os.path.join(COQ, "gen", "RepoConstants.v")
-        os.makedirs(os.path.dirname(out), exist_ok=True)
-        old = open(out).read() if os.path.exists(out) else None
-        if old != text:
-            with open(out, "w") as f:
-                f.write(text)
-    try:
-        import srcfuns
-        e3 = srcfuns.generate_to(os.path.join(COQ, "gen", "SrcFuns.v"), REPO)
-        errs += ["srcfuns.py: " + x for x in e3]
-    except ImportError:
-        pass
-    try:
-        import concfacts
-        e2 = concfacts.generate_to(os.path.join(COQ, "gen", "ConcFacts.v"), REPO)
-        errs += ["concfacts.py: " + x for x in e2]
-    except ImportError:
-        pass
+    errs += [(own, "constants.py: " + x) for own, x in e]
+    out = os.path.join(gen, "RepoConstants.v")
+    old = open(out).read() if os.path.exists(out) else None
+    if old != text:
+        with open(out, "w") as f:
+            f.write(text)
+    import srcfuns
+    errs += [(u, "srcfuns.py: " + x) for u, x in srcfuns.generate_to(gen, REPO)]
+    import concfacts
+    errs += [("C19", "concfacts.py: " + x) for x in concfacts.generate_to(os.path.join(gen, "ConcFacts.v"), REPO)]
+    # further translators: translate/tr_<id>_<what>.py, each with  generate_to(gen_dir, repo) -> [(property id, error)];
+    # a translator that raises breaks the tie of the property in its file name
+    import glob
+    for fn in sorted(glob.glob(os.path.join(VERIF, "translate", "tr_*.py"))):
+        name = os.path.basename(fn)[:-3]
+        m = re.match(r"tr_(C\d\d)", name)
+        try:
+            mod = importlib.import_module(name)
+            errs += [(u, name + ".py: " + x) for u, x in mod.generate_to(gen, REPO)]
+        except Exception as ex:  # noqa
+            errs.append((m.group(1) if m else None, "%s.py: %r" % (name, ex)))
+    old_sf = os.path.join(gen, "SrcFuns.v")      # pre-split layout
+    for ext in ("v", "vo", "vos", "vok", "glob"):
+        if os.path.exists(old_sf[:-1] + ext):
+            os.remove(old_sf[:-1] + ext)
     return errs
 
 
@@ -173,8 +182,13 @@ def gen_coqproject():
         open(p, "w").write(text)
 
 
-def gen_extract():
-    mods = sorted(f[:-2] for f in os.listdir(COQ) if f.endswith("Model.v"))
+def all_models():
+    return sorted(f[:-2] for f in os.listdir(COQ) if f.endswith("Model.v"))
+
+
+def gen_extract(mods=None):
+    if mods is None:
+        mods = all_models()
     text = EXTRACT_HEAD + "From Romea Require Num %s.\nExtraction Language OCaml.\n" % " ".join(mods)
     text += ("Separate Extraction Num %s BinInt.Z.add BinInt.Z.mul BinInt.Z.opp BinInt.Z.sub BinInt.Z.div BinInt.Z.modulo\n"
              "  BinInt.Z.ltb BinInt.Z.leb BinInt.Z.eqb BinInt.Z.of_nat BinInt.Z.to_nat BinInt.Z.of_N BinInt.Z.to_N BinInt.Z.quot BinInt.Z.rem.\n"
@@ -368,10 +382,17 @@ def build_ocaml(drivers=None, timeout=900):
     os.makedirs(OBUILD, exist_ok=True)
     with Lock("coq"):
         coq_makefile()
-        vos = gen_extract()
-        rc, o, e = sh(["make", "-k", "-j%d" % NCPU] + [os.path.relpath(v, COQ) for v in vos], cwd=COQ, timeout=timeout)
+        mods = all_models()
+        rc, o, e = sh(["make", "-k", "-j%d" % NCPU] + [m + ".vo" for m in mods], cwd=COQ, timeout=timeout)
         if rc != 0:
-            return False, "model .vo build failed:\n" + (o + e)[-3000:]
+            # a model that no longer compiles (a constant or a function the translators could not regenerate) must break
+            # the check of the properties that use it and no other: extract the models that are up to date; the driver of
+            # a property whose model is missing then fails to build
+            good = [m for m in mods if sh(["make", "-q", m + ".vo"], cwd=COQ, timeout=120)[0] == 0]
+            if not good:
+                return False, "model .vo build failed:\n" + (o + e)[-3000:]
+            mods = good
+        gen_extract(mods)
     with Lock("ocaml"):
         srcs = [os.path.join(COQ, "Extract.v")] + [os.path.join(COQ, f) for f in os.listdir(COQ) if f.endswith(".vo")]
         srcs += [os.path.join(COQ, "gen", f) for f in os.listdir(os.path.join(COQ, "gen")) if f.endswith(".vo")]
@@ -547,8 +568,9 @@ def run_check(pid, tier="quick", seed=None, replay=None):
     try:
         # 1. translators
         terrs = run_translators()
-        for e in terrs:
-            res.tie_failures.append(("translator", e))
+        for own, e in terrs:
+            if own is None or own == pid:
+                res.tie_failures.append(("translator", e))
         # 2. proofs
         bad = grep_forbidden()
         for b in bad:
